@@ -1,5 +1,5 @@
 (* C17 - key-generation sessions follow a strict one-per-account lifecycle. *)
-From DV Require Import Model.Session Proofs.SessionProofs.
+From DV Require Import Model.Session Proofs.SessionProofs Proofs.SessionCoop.
 
 (* For every sequence of prepare / execute / contribute / commit / abort / clock-advance events over any
    account names, from any table with distinct names: *)
@@ -36,6 +36,20 @@ Theorem C17_commit_needs_everyone :
     fst (sstep_ev p (SCommit a ok)) = EOk ->
     (forall i, In i (s_participants s) -> In i (s_contributed s)) /\ ok = true.
 Proof. exact commit_needs_everyone. Qed.
+
+(* (d') ... and that hypothesis holds in every state reachable with cooperating peers: from an empty table,
+   after ANY history in which every prepare lists distinct participants including this instance and every
+   contribution comes from a listed participant (executes, commits, aborts, repeats, expiries and
+   out-of-order messages are unrestricted), a commit that succeeds found every listed participant. *)
+Theorem C17_commit_needs_everyone_reachable :
+  forall id timeout h a ok,
+    let p0 := {| p_id := id; p_timeout := timeout; p_now := 0; p_sessions := []; p_accounts := [] |} in
+    coop_hist p0 h ->
+    fst (sstep_ev (fst (srun p0 h)) (SCommit a ok)) = EOk ->
+    exists s, fst (get_generation (fst (srun p0 h)) a) = Some s /\
+              (forall i, In i (s_participants s) -> In i (s_contributed s)) /\ ok = true.
+Proof. exact commit_needs_everyone_reachable. Qed.
+Print Assumptions C17_commit_needs_everyone_reachable.
 
 (* (e) after a successful commit, an abort or the timeout the session is gone ... *)
 Theorem C17_gone_afterwards :
